@@ -9,7 +9,7 @@ import numlib as nl
 from props import common
 
 ID = "C14"
-MODULES = ["Series", "Ref", "RefP", "Ctrl"]
+MODULES = ["Series", "SO3", "Ref", "RefP", "Ctrl"]
 LEAN_TARGETS = ["Props.C14"]
 ANCHORS = ["cyecca/models/rdd2.py", "cyecca/models/rdd2_loglinear.py", "cyecca/models/bezier.py",
            "cyecca/models/mr_ref_traj.py", "cyecca/lie/group_so3.py"]
